@@ -92,6 +92,20 @@ class LibError(Exception):
         super().__init__(f'{where}: {type(exc).__name__}: {str(exc)[:300]}')
 
 
+def from_library(exc: BaseException) -> bool:
+    """True if the traceback of `exc` passes through the furax sources (then the exception is the library's behaviour and
+    is reported as a violation, not as a harness failure)."""
+    import os
+
+    src = os.path.realpath(os.path.join(os.environ.get('VERIF_REPO', '/repo'), 'src'))
+    tb = exc.__traceback__
+    while tb is not None:
+        if os.path.realpath(tb.tb_frame.f_code.co_filename).startswith(src):
+            return True
+        tb = tb.tb_next
+    return False
+
+
 def lib(where: str, fn, *a, **k):
     """Calls library code; any exception becomes a LibError carrying the place."""
     try:
